@@ -29,6 +29,12 @@ def run(ctx):
     from . import gram
     gram.literal_text_premises(ctx, ctx.grammar, "C03-G")
     gram.g18_message_not_key(ctx, ctx.grammar, "C03-G")
+    # "only inserts tokens" also means that nothing is lost: what is renamed over the source is the complete new text.
+    # async-std buffers writes, so a failed write of the last chunk shows only at flush / sync; if that error does not
+    # stop the rename, a file without its tail replaces the source (C07-R2 / R3 as premises)
+    from . import c07 as _c07
+    _c07.rule_complete_before_publish(ctx, facts, prefix="C03-R5/C07")
+    _c07.rule_no_retry(ctx, facts, prefix="C03-R5/C07-R3")
     m = edit.anchor(ctx, facts, P, edit.INSERT_MAP, "InsertReferencesProcessor::map (async body)")
     if m is not None:
         prov = Prov(m, stop_at=(r"AsyncTempFile::(path|file)$",))
